@@ -373,6 +373,28 @@ pub fn oracles(cases: &[EnumCase], rep: &mut Report) {
     } else {
         rep.oracle_fail(&all_case, "js-run", json!(js_out.status()));
     }
+    // Dart: how the value crosses in each position of a method (receiver, parameter, result): by position only when
+    // the discriminants are 0..n-1 in declaration order, through the value table otherwise
+    let dart_out = tool::run_backend(&src, "dart");
+    if dart_out.ok() {
+        for c in cases {
+            let discs = c.discs();
+            let contiguous = discs.iter().enumerate().all(|(i, d)| *d == i as i64);
+            let Some(text) = dart_out.files.get(&format!("{}.g.dart", c.name)) else { continue };
+            let text = tool::norm_ws(text);
+            rep.oracle_runs += 1;
+            rep.count("oracle_dart_method_positions");
+            let (call, ret) = if contiguous {
+                (format!("_{0}_rt(index, other.index)", c.name), format!("return {}.values[result];", c.name))
+            } else {
+                (format!("_{0}_rt(_ffi, other._ffi)", c.name), format!("return {}.values.firstWhere((v) => v._ffi == result);", c.name))
+            };
+            if !text.contains(&call) || !text.contains(&ret) {
+                let at = text.find(&format!("_{}_rt(", c.name)).unwrap_or(0);
+                rep.oracle_fail(&c.sexp(), "dart-method-conversion", json!({"contiguous": contiguous, "expected_call": call, "expected_return": ret, "generated": text[at..(at + 160).min(text.len())].to_string()}));
+            }
+        }
+    }
     let _ = std::fs::remove_dir_all(&dir);
 }
 
